@@ -64,7 +64,10 @@ HTab == << [H0 |-> CNone,      h |-> CNone],          \* 1 default H0 = 100
            [H0 |-> CNone,      h |-> <<7, 10>>],      \* 5 h alone
            [H0 |-> <<70, 1>>,  h |-> <<3, 10>>],      \* 6 h overrides H0
            [H0 |-> CNone,      h |-> <<18, 25>>],
-           [H0 |-> <<30, 1>>,  h |-> <<6, 5>>] >>
+           [H0 |-> <<30, 1>>,  h |-> <<6, 5>>],
+           \* 57: binary64 round trips H0/100*100 and c/(c/H0) do not return H0 (copies that rebuild H0 by arithmetic show up)
+           [H0 |-> <<57, 1>>,  h |-> CNone],
+           [H0 |-> CNone,      h |-> <<57, 100>>] >>
 
 \* redshifts: dyadic (exact in binary64) plus a few decimals; 9/16, 5/4, 33/16, 3 are EdS anchors
 ZTab == << <<0, 1>>, <<1, 8>>, <<1, 4>>, <<1, 2>>, <<9, 16>>, <<3, 4>>, <<1, 1>>, <<5, 4>>, <<3, 2>>, <<2, 1>>,
@@ -91,7 +94,7 @@ ChooseCurv ==
              om == COm(args)
              ol == IF cv.lmode = "default" THEN CNone
                    ELSE IF cv.lmode = "half" THEN <<1, 2>>
-                   ELSE RSub(RSub(COne, om), IF CIsNone(cv.ok) THEN CZero ELSE cv.ok)
+                   ELSE CRSub(CRSub(COne, om), IF CIsNone(cv.ok) THEN CZero ELSE cv.ok)
          IN /\ args' = [args EXCEPT !.flat = cv.flat, !.ok = cv.ok, !.ol = ol]
             /\ mech' = [mech EXCEPT !.n = j]
     /\ phase' = "curv" /\ UNCHANGED <<zp, objs, chain, dsp>>
@@ -115,7 +118,7 @@ MExtract(a) ==
         flat1 == IF okgiven THEN a.ok[1] = 0 ELSE a.flat              \* "if omega_k is not None: flat = (omega_k == 0.0)"
         flat2 == IF ~okgiven THEN TRUE ELSE flat1                       \* "without omega_k set we default to flat"
         ok2   == IF ~okgiven THEN CZero ELSE IF flat1 THEN CZero ELSE a.ok
-        ol2   == IF flat2 THEN RSub(COne, COm(a)) ELSE COl(a)           \* "if flat: omega_l = 1.0 - omega_m"
+        ol2   == IF flat2 THEN CRSub(COne, COm(a)) ELSE COl(a)           \* "if flat: omega_l = 1.0 - omega_m"
     IN CParams(a, flat2, ol2, ok2)
 
 \* an object: the inputs it stored (self._flat, _omega_m, _omega_l, _omega_k, _H0) and what it reports
@@ -238,7 +241,7 @@ MechDispatchRefines ==
 E2Positive == phase = "z" =>
     \A k \in DOMAIN CNormalise(args) :
         LET p == CNormalise(args)[k]  zh == CRMax2(zp[1], zp[2])
-        IN CPhysical(p, zh) => (RLt(CZero, CE2(p, zp[1])) /\ RLt(CZero, CE2(p, zp[2])))
+        IN CPhysical(p, zh) => (CRLt(CZero, CE2(p, zp[1])) /\ CRLt(CZero, CE2(p, zp[2])))
 
 \* ---- export ---------------------------------------------------------------------------
 OutsFor(a, z1, z2) ==
